@@ -20,6 +20,7 @@ pub static DEF: PropDef = PropDef {
     ],
     run,
     replay,
+    fuzz: None,
 };
 
 #[derive(Serialize, Deserialize, Debug, Clone, PartialEq, Eq)]
